@@ -15,8 +15,8 @@ from ..core import natlist, natlit
 
 def n_cases(ctx, E):
     if ctx.is_quick:
-        return 6 if E.slow else 14
-    return 60 if E.slow else 250
+        return (5 if E.slow else 25) if E.variant else (10 if E.slow else 75)
+    return (30 if E.slow else 125) if E.variant else (60 if E.slow else 250)
 
 
 def collect(ctx, tag):
@@ -24,7 +24,7 @@ def collect(ctx, tag):
     cases = []
     for ei, E in enumerate(entries):
         for h in range(n_cases(ctx, E)):
-            cases.append(PL.make_case((ctx.seed, ei, h, 101), ei, ctx.tier))
+            cases.append(PL.make_case((ctx.seed, ei, h, 101), ei, ctx.tier, stratum=h))
     outs = PL.run_cases(cases)
     return entries, cases, outs
 
@@ -82,10 +82,40 @@ def run(ctx):
                           PL.case_replay(c), found_input=False,
                           what=f"correspondence Model/PoolQuery.v ({fn}) <-> implementation/oracle no longer holds")
     direct_helpers(ctx)
+    reused_objects(ctx)
     if bmeta:
         c, o = bmeta[len(bmeta) // 2]
         ctx.sample(PL.case_replay(c, o))
     ctx.extra["exhaustive"] = False
+
+
+def reused_objects(ctx):
+    """The statement on a strategy object that is re-used: query / reveal cycles with ONE object (caches such as the
+    precomputed tables of EpistemicUncertaintySampling or fitted state kept between calls must not invalidate later batches)."""
+    from . import c14
+    from ..core import pmap
+    entries = PL._entries()
+    loops = []
+    for ei, E in enumerate(entries):
+        if E.base == "FourDs":            # its recorded finding is scoped by a tag that needs the utilities
+            continue
+        for h in range(((1 if E.slow else 4) if E.variant else (2 if E.slow else 12)) if ctx.is_quick else (10 if E.slow else 100)):
+            loops.append(c14.make_loop((ctx.seed, ei, h, 1401), ei))
+    for lp, out in zip(loops, pmap(c14._run_loop, loops, chunksize=1)):
+        E = entries[lp["eidx"]]
+        ctx.count("reused_object:" + E.name, max(1, len(out["batches"])))
+        if len(out["batches"]) >= 2:
+            ctx.nontriv(("reused", E.name, lp["seed"], lp["b"], lp["X"].tobytes(), lp["y"].tobytes()))
+        rc = {"strategy": E.name, "X": lp["X"].tolist(), "y": [None if np.isnan(v) else float(v) for v in lp["y"]], "reused_object": True,
+              "y_true": lp["y_true"].tolist(), "classes": lp["classes"], "batch_size": lp["b"], "seed": lp["seed"], "batches": out["batches"]}
+        tags = PL.case_tags({"X": lp["X"], "y": lp["y"], "cmode": "none", "cand": None})
+        if out["status"] == "timeout":
+            ctx.violation(E.name, "timeout", "query on a re-used strategy object did not return", rc, what=f"{E.name}: query did not terminate in time (re-used object)", tags=tags)
+        elif out["status"] == "exception":
+            ctx.violation(E.name, "exception:" + out["err"], out["msg"], rc, what=f"{E.name}: query on a re-used strategy object raised, {out['msg']}", tags=tags)
+        elif out["problem"] and not (E.subsample and out.get("c01kind") == "batch_length" and c14._only_short(lp, out)):
+            ctx.violation(E.name, out.get("c01kind", out["problem"][0]), out["problem"][1], rc,
+                          what=f"{E.name} (one strategy object re-used over query/reveal cycles): {out['problem'][1]}", tags=tags)
 
 
 def direct_helpers(ctx):
@@ -133,6 +163,9 @@ def direct_helpers(ctx):
 
 def replay(ctx, path):
     rec = json.load(open(path))
+    if isinstance(rec.get("case"), dict) and rec["case"].get("reused_object"):
+        from . import c14
+        return c14.replay(ctx, path)
     case, out = PL.replay_case(rec["case"])
     res = PL.oracle_c01(case, out)
     print("replay:", out.get("status"), None if out.get("idx") is None else np.asarray(out["idx"]).tolist(), res or "property holds on this input")
